@@ -47,6 +47,7 @@ def gen_history(rng, length, plant=False, objects=False):
     the same way, whatever its cache holds; it may be removed again (delete-objects) before the last observations."""
     h = []
     alive = {0: [], 1: []}      # repo -> [(label, client)]
+    ever = {0: [], 1: []}       # repo -> labels of every snapshot ever created
     for i in range(length):
         client = rng.choices([0, 1, 2, 3], weights=[4, 3, 2, 2])[0]
         repo = 1 if client == 3 else 0
@@ -54,6 +55,7 @@ def gen_history(rng, length, plant=False, objects=False):
         if k < 0.3 or (i < 3 and not alive[repo]):
             h.append({'op': 'snapshot', 'client': client, 'tree': rng.randrange(4), 'note': rng.choice([None, 'n%d' % i])})
             alive[repo].append((i, client))
+            ever[repo].append(i)
         elif objects and k < 0.36:
             h.append({'op': rng.choice(['mirror', 'list_objects', 'download_objects', 'upload_objects']), 'client': client,
                       'skip_existing': rng.random() < 0.5})
@@ -62,12 +64,14 @@ def gen_history(rng, length, plant=False, objects=False):
             h.append({'op': 'delete_objects', 'client': client, 'labels': [lab[0]]})
             alive[repo].remove(lab)
         elif k < 0.45:
-            h.append({'op': 'list_snapshots', 'client': client})
+            h.append({'op': 'list_snapshots', 'client': client, 'select': rng.choice(ever[repo]) if ever[repo] and rng.random() < 0.3 else None})
         elif k < 0.55:
-            h.append({'op': 'list_files', 'client': client})
+            h.append({'op': 'list_files', 'client': client, 'select': rng.choice(ever[repo]) if ever[repo] and rng.random() < 0.3 else None})
         elif k < 0.75:
             mine = [l for l, c in alive[repo] if c == client]
-            tgt = rng.choice(mine) if mine and rng.random() < 0.7 else None
+            r_ = rng.random()
+            # by complete name: mostly an own live snapshot, sometimes ANY snapshot ever created here (deleted, somebody else's)
+            tgt = rng.choice(mine) if mine and r_ < 0.6 else (rng.choice(ever[repo]) if ever[repo] and r_ < 0.8 else None)
             h.append({'op': 'restore', 'client': client, 'target': tgt})
         elif k < 0.9 and alive[repo]:
             r = rng.random()
@@ -93,6 +97,7 @@ def gen_history(rng, length, plant=False, objects=False):
         lab = alive[repo][-1][0]
         h += [{'op': 'list_snapshots', 'client': b}, {'op': 'mirror', 'client': b, 'skip_existing': False},
               {'op': 'delete_objects', 'client': a, 'labels': [lab]},
+              {'op': 'list_snapshots', 'client': b, 'select': lab}, {'op': 'restore', 'client': b, 'target': lab}, {'op': 'list_files', 'client': b, 'select': lab},
               {'op': 'upload_objects', 'client': b, 'skip_existing': True}, {'op': 'list_objects', 'client': b},
               {'op': 'download_objects', 'client': b, 'skip_existing': False}, {'op': 'download_objects', 'client': a, 'skip_existing': True}]
     planted = None
@@ -106,6 +111,8 @@ def gen_history(rng, length, plant=False, objects=False):
                 op['target'] += 1
             if 'labels' in op:
                 op['labels'] = [l + 1 if l >= at else l for l in op['labels']]
+            if op.get('select') is not None and op['select'] >= at:
+                op['select'] += 1
         planted = (at, pc)
     # always end with observations by everybody
     for c in range(4):
@@ -341,6 +348,12 @@ class World:
         self.planted[i] = src
         return src
 
+    def selection(self, op):
+        """--snapshot-regex <complete name> of the snapshot with that label (also when it has been deleted meanwhile)"""
+        if op.get('select') is None:
+            return {}
+        return {'snapshot_regex': next((n for n, l in self.labels.items() if l == op['select']), 'd' * 16)}
+
     # ---- one step
     def step(self, i, op):
         c = op['client']
@@ -367,10 +380,10 @@ class World:
                 self.creator[i] = c
                 self.paths[i] = (repo, o.value.location, self.objects(repo)[o.value.location])
         elif kind == 'list_snapshots':
-            o = cl.list_snapshots()
+            o = cl.list_snapshots(**self.selection(op))
             obs['rows'] = self.canon_rows(o.stdout, sort=False)
         elif kind == 'list_files':
-            o = cl.list_files()
+            o = cl.list_files(**self.selection(op))
             obs['rows'] = self.canon_rows(o.stdout, sort=True)
         elif kind == 'restore':
             dest = self.dir / f'out-{i}'
@@ -844,6 +857,9 @@ def model_text(history, run, variant):
             o = f'OPut P{i} SN{i}' if st['extra'].get('planted_from') is not None else 'OLoad (Some [])'
         elif k == 'unplant':
             o = f'ORemove P{op["label"]}' if any(j == op['label'] for j, _ in created) else 'OLoad (Some [])'
+        elif k in ('list_snapshots', 'list_files') and op.get('select') is not None:
+            sl = op['select']
+            o = f'OLoad (Some [Hash SN{sl}])' if any(j == sl for j, _ in created) else 'OLoad (Some [])'
         elif k in ('list_snapshots', 'list_files', 'clean'):
             o = 'OLoad None'
         elif k == 'restore':
